@@ -332,6 +332,44 @@ def known_classes(world: World, table: ClassTable, module, fs: set, var) -> list
     return out
 
 
+def _homothety_roles_partition(fn: ast.FunctionDef, roles: dict) -> dict | None:
+    """The same roles when the operands are partitioned by two comprehensions and the scalars multiplied in a loop over
+    the scalar part: scalars = [x for x in ops if isinstance(x, H)]; kept = [x for x in ops if not isinstance(x, H)];
+    for h in scalars: value *= h.value.  The number of scalars is len(scalars)."""
+    ops = roles['ops']
+    scalars = kept = None
+    test = elem = None
+    for st in fn.body:
+        if not (isinstance(st, ast.Assign) and len(st.targets) == 1 and isinstance(st.targets[0], ast.Name) and isinstance(st.value, ast.ListComp)):
+            continue
+        c = st.value
+        if len(c.generators) != 1 or not isinstance(c.generators[0].target, ast.Name) or len(c.generators[0].ifs) != 1:
+            continue
+        g = c.generators[0]
+        if not (isinstance(g.iter, ast.Name) and g.iter.id == ops and isinstance(c.elt, ast.Name) and c.elt.id == g.target.id):
+            continue
+        t = term(g.ifs[0])
+        if t[0] == 'call' and t[1] == ('var', 'isinstance') and t[2][0] == ('var', g.target.id):
+            scalars, test, elem = st.targets[0].id, t, g.target.id
+        elif t[0] == 'unop' and t[1] == 'not' and t[2][0] == 'call' and t[2][1] == ('var', 'isinstance') and t[2][2][0] == ('var', g.target.id):
+            kept = st.targets[0].id
+            if test is None:
+                test, elem = t[2], g.target.id
+    if scalars is None or kept is None:
+        return None
+    # the partition must be by one and the same class test
+    out = dict(roles)
+    out.update({'kept': kept, 'scalars': scalars, 'test': test if test[2][0] == ('var', elem) else test, 'elem': elem, 'count': f'len({scalars})',
+                'count_term': ('call', ('var', 'len'), (('var', scalars),), ())})
+    for st in fn.body:
+        if isinstance(st, ast.For) and isinstance(st.iter, ast.Name) and st.iter.id == scalars and isinstance(st.target, ast.Name):
+            for b in st.body:
+                if isinstance(b, ast.AugAssign) and isinstance(b.target, ast.Name) and isinstance(b.op, ast.Mult) and term(b.value) == ('attr', ('var', st.target.id), 'value'):
+                    out['value'] = b.target.id
+                    out['loop'] = st
+    return out if 'value' in out else None
+
+
 def homothety_roles(fn: ast.FunctionDef) -> dict | None:
     """Discovers, by role, the local names of HomothetyRule.apply: the operand list parameter, first/last (from the
     starred unpacking), the scalar accumulator, the list of kept operands, the scalar counter and the side flag."""
@@ -346,7 +384,13 @@ def homothety_roles(fn: ast.FunctionDef) -> dict | None:
                 roles['first'], roles['last'] = elts[0].id, elts[2].id
     loops = [n for n in fn.body if isinstance(n, ast.For) and isinstance(n.iter, ast.Name) and n.iter.id == ops and isinstance(n.target, ast.Name)]
     if len(loops) != 1:
-        return None
+        alt = _homothety_roles_partition(fn, roles)
+        if alt is not None:
+            for st in fn.body:
+                if isinstance(st, ast.Assign) and isinstance(st.targets[0], ast.Name) and isinstance(st.value, ast.Compare):
+                    alt['side'] = st.targets[0].id
+                    alt['side_term'] = term(st.value)
+        return alt
     loop = loops[0]
     v = loop.target.id
     roles['loop'], roles['elem'] = loop, v
